@@ -12,7 +12,7 @@ func init() { Registry["C05"] = checkC05 }
 
 // C05 — samples written into fragments are read back exactly (narrow structural clauses).
 func checkC05(c *Ctx, r *Report) {
-	r.Explanation = "(DEP) the size MdatBox.Encode and EncodeSW hand to the header writer is the box's own Size() (which accounts for a lazily written payload); (L-BOUNDARY) an integer that is narrowed to k bits, or that selects a box version, is compared with 2^k by >= or < and with 2^k-1 by > or <= (tfdt/sidx version selection at 2^32, box header largesize, subsample split at 2^16): the value 2^k itself is never kept on the k-bit side; (T-TYPEDCHILD) a function that replaces a typed child pointer of a box (traf.Tfdt) also updates Children of that box, which is what Encode writes; (O-LAZYRESET) a function that appends real sample bytes to the mdat and, through a callee, advances lazyDataSize stores it 0 afterwards (Size() prefers the lazy size); Narrow structural clauses of the write/read path of fragments: (O-ENC) in Fragment.Encode and EncodeSW, SetTrunDataOffsets is called on every path before any child is encoded and never before OptimizeTfhdTrun; " +
+	r.Explanation = "(S-PLURAL) the slice variant of an Add method (TrunBox.AddSamples) stores every receiver field the single variant (AddSample) stores; (DEP) the size MdatBox.Encode and EncodeSW hand to the header writer is the box's own Size() (which accounts for a lazily written payload); (L-BOUNDARY) an integer that is narrowed to k bits, or that selects a box version, is compared with 2^k by >= or < and with 2^k-1 by > or <= (tfdt/sidx version selection at 2^32, box header largesize, subsample split at 2^16): the value 2^k itself is never kept on the k-bit side; (T-TYPEDCHILD) a function that replaces a typed child pointer of a box (traf.Tfdt) also updates Children of that box, which is what Encode writes; (O-LAZYRESET) a function that appends real sample bytes to the mdat and, through a callee, advances lazyDataSize stores it 0 afterwards (Size() prefers the lazy size); Narrow structural clauses of the write/read path of fragments: (O-ENC) in Fragment.Encode and EncodeSW, SetTrunDataOffsets is called on every path before any child is encoded and never before OptimizeTfhdTrun; " +
 		"(O-TFDT) every Fragment method that sets the track fragment decode time does so under a test on the sample count of the FIRST run of the track (TrafBox.Trun), so a later run cannot overwrite it; " +
 		"(O-PAIR) every Fragment method that appends samples to a run also accounts their data in the mdat; (O-NR) every CreateTrun(f.nextTrunNr) is followed by an increment of nextTrunNr; " +
 		"(DEP) the data offset stored in each trun depends on Moof.Size(), Mdat.HeaderSize(), the preceding runs' SizeOfData() and the write order; the mdat offset handed to TrunBox.GetFullSamples depends on " +
@@ -229,6 +229,9 @@ func checkC05(c *Ctx, r *Report) {
 
 	if n := ruleTypedChildStores(c, r); n < 2 {
 		r.Undecided("T-TYPEDCHILD", "scope", "", "no store to a typed child pointer outside AddChild found")
+	}
+	if n := rulePluralSibling(c, r, func(f *ssa.Function) bool { return strings.HasPrefix(SSAFuncName(f), "mp4.") }); n < 1 {
+		r.Undecided("S-PLURAL", "scope", "", "no single/slice method pair found (TrunBox.AddSample / AddSamples expected)")
 	}
 	if n := ruleHeaderSizeIsSize(c, r); n < 2 {
 		r.Undecided("DEP", "scope:header-size", "", "MdatBox.Encode / EncodeSW header calls with an explicit size not found")
